@@ -29,7 +29,7 @@ MINIMISE_S = {"quick": 60, "thorough": 240}
 RULE = ("a case = one history on one engine: 1-4 program segments of New(n)/Del/Coherent/Vacuum/Dgate/Rgate/BSgate/LossChannel/"
         "homodyne-measurement steps, run as one list or one call per segment, with injected invalid operations (deleted / never "
         "created / duplicated mode at the front end, a successor that cannot follow, raw backend calls on dead indices), reset() "
-        "and crash+recover; non-trivial iff the history contains a New or Del and either >= 2 segments or a rejected invalid "
+        "and crash+recover; *-ent batches: entangled, mixed and non-Gaussian states with the add_mode/del_mode invariant and the twin without register operations; non-trivial iff the history contains a New or Del and either >= 2 segments or a rejected invalid "
         "operation; distinct = distinct history digests")
 REAL = ["strawberryfields.program.Program register accounting (_add_subsystems, _delete_subsystems, _test_regrefs, can_follow)",
         "strawberryfields.engine.LocalEngine/BosonicEngine", "backends.base.ModeMap", "Gaussian/Fock/bosonic backends: add_mode, del_mode, state, get_modes",
